@@ -211,12 +211,32 @@ skeleton (`Gen/C07.lean`, regenerated on every run): package parser has exactly 
 starting `(*lexer).run`), `close(l.tokens)` is the last statement of `run`, `ParseWithRuntime` defers
 `p.tokens.drain()` and `drain` is `for range b.tokens {}` in the calling goroutine. -/
 
-/-- **source_selects_sync.** The extracted skeleton selects the synchronous-drain transition system, with one
-    producer goroutine whose last channel operation is the close. (A `decide` over generated facts: if the
-    source changes — e.g. the drain is moved into a goroutine — this theorem no longer checks.) -/
+/-- **source_selects_sync** (regenerated, three-valued source facts; only a REFUTED fact breaks this). The
+    extractor finds the drain by what it does — a loop, reachable from a defer of `ParseWithRuntime` through
+    same-package calls and closures, which receives from the token channel and whose only way out is the
+    closed channel — and the close by being the last action of the producer goroutine's body in any spelling;
+    a design without any goroutine alive during parsing is accepted. Refuting clauses: a `go` statement on the
+    drain path (asynchronous drain), no drain although a producer goroutine exists, a second way out of the
+    receive loop (select, timer, loop condition, unguarded break / return), statements after the close / an
+    early return skipping it. "unknown" is not an obligation (note + amplified search in the run). -/
 theorem source_selects_sync :
-    Ecal.Gen.C07.ok = true ∧ modeOf Ecal.Gen.C07.drainMode = some Mode.sync ∧ Ecal.Gen.C07.goStatements = 1 ∧
-    Ecal.Gen.C07.goWhere = "Lex" ∧ Ecal.Gen.C07.closeLastInRun = true ∧ Ecal.Gen.C07.deferDrain = true := by decide
+    Ecal.Gen.C07.syncFact ≠ "no" ∧ Ecal.Gen.C07.closeFact ≠ "no" := by decide
+
+/-- **no_package_state_written** (regenerated source fact). Package parser writes no package-level variable
+    outside `init()`: no state survives a call or is shared between concurrent calls (the class of the old
+    astNodeMap rewrite, cbd1b2f, and of an unlocked package-level cache). Writes through aliases / method calls
+    on package-level objects are not tracked (the concurrent-callers case of the run is the test for those). -/
+theorem no_package_state_written : Ecal.Gen.C07.pkgWrites = [] := by decide
+
+/-- **errors_short_circuit** (regenerated source fact; the obligation behind the model's error monad).
+    The MODEL is a short-circuit error monad: after an error nothing else happens, so "tree xor error", "the first
+    error wins" and "no child is appended after an error" hold in the model BY CONSTRUCTION. parser.go instead
+    has `err` variables and a guard per site. The extractor searches the refuting patterns of that discipline
+    (an error result of a same-package call discarded as an expression statement — the defect classes of
+    c1d34c3 and be7569d; `err` assigned in a loop and overwritten by the next iteration untested — 486e4c7);
+    finding one refutes the fact. Their absence does NOT establish the discipline ("unknown"): for parser.go
+    xor / first-error-wins are TESTED by the correspondence (exact error kind+line+col, BOTH/NEITHER, NIL). -/
+theorem errors_short_circuit : Ecal.Gen.C07.errFact ≠ "no" := by decide
 
 /-- measure of what is still to happen once the consumer has stopped parsing -/
 def todo (s : St) : Nat :=
@@ -232,7 +252,7 @@ theorem step_inv (s s' : St) (e : Ev) (h : step .sync s e = some s') (hi : SyncI
     simp_all [SyncInv] <;> (subst h; simp_all)
 
 /-- **producer_done_at_return** (was `no_producer_left`). In the transition system selected by the source
-    (`source_selects_sync`): for every number of tokens, every interleaving and every point at which the parse
+    (`source_selects_sync`, with `modeOf "sync"`): for every number of tokens, every interleaving and every point at which the parse
     function stops (any event sequence is allowed, so the consumer may stop after any number of receives), in
     every state in which `ParseWithRuntime` has returned — in particular AT the return event — no helper
     goroutine exists and the lexer goroutine is past `close(l.tokens)`, its last statement (`clean`). The drain
@@ -324,15 +344,17 @@ def entryAgrees (e : Nat × String × Nat × String × String) : Bool :=
   | some (nm, b, x, l) => nm = e.2.1 && b = e.2.2.1 && nudName x = e.2.2.2.1 && ledName l = e.2.2.2.2
   | none => false
 
-/-- **table_matches_source.** `Parse.table` (the model's grammar table) is exactly the `astNodeMap` of the tree
-    under test, extracted by `harness C07 -tool gen` on every run: every extracted entry has the same node
-    name, binding and null/left denotation in the model, the model has no further entry (ids < 200), the
-    block-start brace entry is the one `instanceOf` uses, and the ids of the error / comment tokens are the
-    ones `nextNode` / `splitComments` test. -/
+/-- **table_matches_source** (regenerated, constants and keyed literals folded). Every entry of the tree's
+    `astNodeMap` which the extractor understood has the same node name, binding and null/left denotation NAME in
+    `Parse.table`; if the whole table was understood, the model has no further entry (ids < 200) and the
+    block-start brace entry is the one `instanceOf` uses; the ids of the error / comment tokens are the ones
+    `nextNode` / `splitComments` test. Entries not understood are no obligation (note). The BODIES of the
+    nd*/ld* functions are hand-transcribed into the model (tied by the correspondence only). -/
 theorem table_matches_source :
-    Ecal.Gen.C07.ok = true ∧ Ecal.Gen.C07.astNodeMap.all entryAgrees = true ∧
-    (List.range 200).all (fun id => (table id).isNone || Ecal.Gen.C07.astNodeMap.any (·.1 = id)) = true ∧
-    Ecal.Gen.C07.blockBrace = (T_LBRACE, "", 0, "nil", "nil") ∧
+    Ecal.Gen.C07.astNodeMap.all entryAgrees = true ∧
+    (Ecal.Gen.C07.tableUnderstood = true →
+      (List.range 200).all (fun id => (table id).isNone || Ecal.Gen.C07.astNodeMap.any (·.1 = id)) = true) ∧
+    (Ecal.Gen.C07.blockBrace = none ∨ Ecal.Gen.C07.blockBrace = some (T_LBRACE, "", 0, "nil", "nil")) ∧
     Ecal.Gen.C07.tokenError = 0 ∧ Ecal.Gen.C07.tokenPreComment = 3 ∧ Ecal.Gen.C07.tokenPostComment = 4 := by decide
 
 /-! ## End to end: source text → lexer → parser, with the token channel -/
